@@ -11,6 +11,7 @@ import subprocess
 
 from . import facts as factsmod
 from .model import Program
+from .flatten import flatten_program
 from .report import Ctx, VERIF
 
 
@@ -63,7 +64,7 @@ def run_selftests(ctx, prop, limit=None):
             sub.config = "default"
             try:
                 fj, meta = factsmod.extract("default", repo=copy)
-                P = Program(fj)
+                P = flatten_program(fj)
                 P.repo = copy
                 mod.run(sub, P)
                 viol = [o for o in sub.obs if o["status"] == "violation"]
